@@ -48,9 +48,21 @@ func VerifC07Dubbo() {
 	caller := tm.InitSeataContext(context.Background())
 	tm.SetXID(caller, xid)
 
-	// consumer side: the filter attaches the xid
+	// consumer side: the filter attaches the xid. The outbound invocation may already carry
+	// an xid (dubbo-go copies the attachments a handler received into the calls it makes
+	// with that context): the xid of the calling scope wins
 	wire := &c07Invocation{att: map[string]interface{}{}}
-	f.Invoke(caller, &c07Invoker{fn: func(ctx context.Context, inv protocol.Invocation) protocol.Result { return nil }}, wire)
+	if vrt.Bool("outbound.invocation.carries.a.stale.xid") {
+		wire.att["SEATA_XID"], wire.att["TX_XID"] = "10.9.9.9:8091:1", "10.9.9.9:8091:1"
+		vrt.Assume(xid != "10.9.9.9:8091:1")
+	}
+	downstream := "?"
+	f.Invoke(caller, &c07Invoker{fn: func(ctx context.Context, inv protocol.Invocation) protocol.Result {
+		downstream = tm.GetXID(ctx)
+		return nil
+	}}, wire)
+	vrt.Assert(wire.att["SEATA_XID"] == interface{}(xid) && wire.att["TX_XID"] == interface{}(xid), "dubbo/consumer-sends-the-xid-of-the-calling-scope")
+	vrt.Assert(downstream == xid, "dubbo/consumer-chain-keeps-the-xid-of-the-calling-scope")
 
 	// provider side: a fresh context, the attachments as received; a Java
 	// consumer sends only one of the spellings
